@@ -140,7 +140,7 @@ Section GO.
   Lemma ins_node strict o ls ks k k2 key :
     ins A eqb strict (Node o ls ks) (k :: k2 :: key) =
     if memx k ls then
-      if strict && negb (last_is A eqb k ls) then Err (bad strict)
+      if negb (last_is A eqb k ls) then Err (bad strict)
       else match go_last strict (k2 :: key) ks with
            | Ok ks' => Ok (Node o ls ks')
            | Err e => Err e
@@ -203,7 +203,7 @@ Section GO.
       cbn [offsets_ok] in Ho. apply andb_true_iff in Ho as [Ho1 Ho2].
       cbn [labels_ok] in Hl. apply andb_true_iff in Hl as [Hl1 Hl2].
       destruct (memx k ls) eqn:M.
-      + destruct (last_is A eqb k ls) eqn:L; [|discriminate]. cbn [andb negb] in Hi.
+      + destruct (last_is A eqb k ls) eqn:L; [|discriminate]. cbn [negb] in Hi.
         destruct (go_last true (k2 :: key) ks) as [ks'|] eqn:G; [|discriminate]. injection Hi as <-.
         destruct (go_last_spec _ _ _ G) as (ks0 & c & c' & -> & Hc & ->).
         destruct (last_is_snoc _ _ L) as (ls0 & ->).
@@ -242,23 +242,24 @@ Section GO.
           apply forallb_app_true; [exact Hl2|]. cbn [forallb]. rewrite labels_ok_set_off, L. reflexivity.
   Qed.
 
-  (* ---- IndexLevelGO.append agrees with the builder wherever the builder accepts the key *)
-  Lemma append_agrees : forall (t : level) key t',
-    ins A eqb true t key = Ok t' -> ins A eqb false t key = Ok t'.
+  (* ---- IndexLevelGO.append and the builder run the same rule (since fix 5320f59): what one accepts the
+          other accepts with the same result; only the error class of a rejection differs *)
+  Lemma append_agrees : forall b1 b2 (t : level) key t',
+    ins A eqb b1 t key = Ok t' -> ins A eqb b2 t key = Ok t'.
   Proof.
-    induction t as [o ls|o ls ks IH] using level_ind'; intros key t' Hi.
-    - destruct key as [|k [|k2 key]]; try discriminate. cbn [ins] in *.
-      destruct (memx k ls); [discriminate|exact Hi].
-    - destruct key as [|k [|k2 key]]; try discriminate. rewrite ins_node in *.
+    intros b1 b2. induction t as [o ls|o ls ks IH] using level_ind'; intros key t' Hi.
+    - destruct key as [|k [|k2 key]]; try (destruct b1; discriminate). cbn [ins] in *.
+      destruct (memx k ls); [destruct b1; discriminate|exact Hi].
+    - destruct key as [|k [|k2 key]]; try (destruct b1; discriminate). rewrite ins_node in *.
       destruct (memx k ls); [|exact Hi].
-      destruct (last_is A eqb k ls); [|discriminate]. cbn [andb negb] in *.
-      destruct (go_last true (k2 :: key) ks) as [ks'|] eqn:G; [|discriminate].
-      assert (G' : go_last false (k2 :: key) ks = Ok ks').
+      destruct (last_is A eqb k ls); [|destruct b1; discriminate]. cbn [negb] in *.
+      destruct (go_last b1 (k2 :: key) ks) as [ks'|] eqn:G; [|discriminate].
+      assert (G' : go_last b2 (k2 :: key) ks = Ok ks').
       { clear Hi. revert ks' G. induction ks as [|c ks IHks]; intros ks' G; [discriminate|].
         inversion IH; subst. destruct ks as [|c2 ks].
-        - rewrite map_last_one in *. destruct (ins A eqb true c (k2 :: key)) as [c'|] eqn:E; [|discriminate].
+        - rewrite map_last_one in *. destruct (ins A eqb b1 c (k2 :: key)) as [c'|] eqn:E; [|discriminate].
           rewrite (H1 _ _ E). exact G.
-        - rewrite map_last_more in *. destruct (go_last true (k2 :: key) (c2 :: ks)) as [r|] eqn:E; [|discriminate].
+        - rewrite map_last_more in *. destruct (go_last b1 (k2 :: key) (c2 :: ks)) as [r|] eqn:E; [|discriminate].
           rewrite (IHks H2 r eq_refl). exact G. }
       rewrite G'. exact Hi.
   Qed.
@@ -321,17 +322,21 @@ Section GO.
   Qed.
 
   (* ---- IndexHierarchyGO.append *)
-  Theorem append_exact : forall (t : level) h key t',
-    wf A eqb h t = true -> length key = S h -> ins A eqb true t key = Ok t' ->
-    M_append A eqb t key = Ok t' /\ flatten t' = flatten t ++ [key] /\ wf A eqb h t' = true.
+  (* every key: an admitted append adds exactly that tuple at the end and keeps the tree well formed; a
+     rejected one leaves the state (tree and cache) untouched *)
+  Theorem append_exact : forall (t : level) h key,
+    wf A eqb h t = true ->
+    (forall t', M_append A eqb t key = Ok t' -> flatten t' = flatten t ++ [key] /\ wf A eqb h t' = true) /\
+    (forall e (st : ihgo A), g_tree st = t -> M_append A eqb t key = Err e -> go_step A eqb st (OAppend key) = st).
   Proof.
-    intros t h key t' Hw Hlen Hi. apply wf_split in Hw as [H0 Hw].
-    destruct (ins_strict_ok t h key t' Hw Hlen Hi) as (F & W & Z0).
-    repeat split.
-    - unfold M_append. destruct Hw as (Hu & _). rewrite (uniform_depth _ _ _ Hu), Hlen, Nat.eqb_refl.
-      apply append_agrees. exact Hi.
-    - exact F.
-    - apply wf_split. split; [congruence|exact W].
+    intros t h key Hw. split.
+    - intros t' HM. apply wf_split in Hw as [H0 Hw]. unfold M_append in HM.
+      destruct Hw as (Hu & Ho & Hl). rewrite (uniform_depth _ _ _ Hu) in HM.
+      destruct (Nat.eqb (length key) (S h)) eqn:EL; [|discriminate]. apply Nat.eqb_eq in EL.
+      pose proof (append_agrees false true _ _ _ HM) as Hi.
+      destruct (ins_strict_ok t h key t' (conj Hu (conj Ho Hl)) EL Hi) as (F & W & Z0).
+      split; [exact F|]. apply wf_split. split; [congruence|exact W].
+    - intros e st <- HM. cbn [go_step]. rewrite HM. reflexivity.
   Qed.
 
   (* ---- IndexHierarchyGO.extend *)
@@ -444,28 +449,28 @@ Section GO.
   Proof. intros [H|H]; unfold go_blocks; rewrite H; reflexivity. Qed.
 
   Theorem go_history : forall ops (st : ihgo A) h,
-    wf A eqb h (g_tree st) = true -> coherent st -> hist_dom A eqb h st ops = true ->
+    wf A eqb h (g_tree st) = true -> coherent st -> forallb (op_dom A eqb h) ops = true ->
     wf A eqb h (g_tree (fold_left (go_step A eqb) ops st)) = true /\
-    flatten (g_tree (fold_left (go_step A eqb) ops st)) = flatten (g_tree st) ++ flat_map (op_rows A) ops /\
+    flatten (g_tree (fold_left (go_step A eqb) ops st)) = flatten (g_tree st) ++ hist_rows A eqb st ops /\
     coherent (fold_left (go_step A eqb) ops st).
   Proof.
     induction ops as [|o ops IH]; intros st h Hw Hc Hd.
     - cbn. rewrite app_nil_r. auto.
-    - cbn [hist_dom] in Hd. apply andb_true_iff in Hd as [Ho Hd]. cbn [fold_left flat_map].
+    - cbn [forallb] in Hd. apply andb_true_iff in Hd as [Ho Hd]. cbn [fold_left hist_rows].
       assert (STEP : wf A eqb h (g_tree (go_step A eqb st o)) = true /\
-                     flatten (g_tree (go_step A eqb st o)) = flatten (g_tree st) ++ op_rows A o /\
+                     flatten (g_tree (go_step A eqb st o)) = flatten (g_tree st) ++ step_rows A eqb (g_tree st) o /\
                      coherent (go_step A eqb st o)).
-      { destruct o as [k|u|]; cbn [op_dom] in Ho.
-        - apply andb_true_iff in Ho as [Hl Hi]. apply Nat.eqb_eq in Hl.
-          destruct (ins A eqb true (g_tree st) k) as [t'|] eqn:E; [|discriminate].
-          destruct (append_exact _ _ _ _ Hw Hl E) as (HM & F & W).
-          cbn [go_step]. rewrite HM. cbn [g_tree op_rows]. repeat split; auto. left. reflexivity.
-        - apply andb_true_iff in Ho as [Ho Hi]. apply andb_true_iff in Ho as [Ho Hl].
-          apply andb_true_iff in Ho as [Hu Hof].
-          destruct (M_extend A eqb (g_tree st) u) as [t'|] eqn:E; [|discriminate].
-          destruct (extend_exact _ _ _ _ Hw (conj Hu (conj Hof Hl)) E) as (F & W).
-          cbn [go_step]. rewrite E. cbn [g_tree op_rows]. repeat split; auto. left. reflexivity.
-        - cbn [go_step op_rows]. rewrite app_nil_r. destruct (g_cache st) eqn:EC.
+      { destruct o as [k|u|]; cbn [op_dom] in Ho; cbn [go_step step_rows].
+        - destruct (append_exact (g_tree st) h k Hw) as [HOk _].
+          destruct (M_append A eqb (g_tree st) k) as [t'|] eqn:E; cbn [is_ok].
+          + destruct (HOk t' eq_refl) as (F & W). cbn [g_tree]. repeat split; auto. left. reflexivity.
+          + rewrite app_nil_r. auto.
+        - apply andb_true_iff in Ho as [Ho Hl]. apply andb_true_iff in Ho as [Hu Hof].
+          destruct (M_extend A eqb (g_tree st) u) as [t'|] eqn:E; cbn [is_ok].
+          + destruct (extend_exact _ _ _ _ Hw (conj Hu (conj Hof Hl)) E) as (F & W).
+            cbn [g_tree]. repeat split; auto. left. reflexivity.
+          + rewrite app_nil_r. auto.
+        - rewrite app_nil_r. destruct (g_cache st) eqn:EC.
           + repeat split; auto.
           + cbn [g_tree]. repeat split; auto. right. reflexivity. }
       destruct STEP as (W1 & F1 & C1).
